@@ -211,9 +211,11 @@ def run_families(fams, prop, tier, seed, replay=None):
     if replay:
         with open(replay) as fh:
             first = decode_case_line(fh.readline())
-        for fam in fams:
-            if fam.case_fam is None or first.get("fam") == fam.case_fam:
-                return run_family(fam, prop, tier, seed, replay)
+        def matches(fam):
+            cf = fam.case_fam
+            return cf is not None and (first.get("fam") == cf or (isinstance(cf, (tuple, list)) and first.get("fam") in cf))
+        for fam in [f for f in fams if matches(f)] + [f for f in fams if f.case_fam is None]:
+            return run_family(fam, prop, tier, seed, replay)
         raise Undecided("replay file belongs to no family of %s" % prop)
     _SINK = []
     try:
